@@ -188,6 +188,7 @@ func (w *World) CreatePool(base, quote, fee, ratio, offset string) (PoolInfo, er
 
 // CreatePoolAt creates a pool whose generated first position is centred on tick centre.
 func (w *World) CreatePoolAt(base, quote, fee, ratio, offset string, centre int64) (PoolInfo, error) {
+	w.discardedTwin(base, quote, ratio, centre)
 	ctx := w.H.Ctx()
 	var id uint64
 	err := apph.Tx(ctx, func(ctx sdk.Context) error {
@@ -209,6 +210,35 @@ func (w *World) CreatePoolAt(base, quote, fee, ratio, offset string, centre int6
 	p := PoolInfo{ID: id, Denoms: den[:4], Ratio: ratio, Offset: offset, Fee: fee, Centre: centre}
 	w.Pools = append(w.Pools, p)
 	return p, nil
+}
+
+// discardedTwin plays, in a cache context that is never written, what a rolled-back transaction or a
+// gas simulation would do just before the real creation: it creates a pool with the same denoms on
+// ANOTHER tick grid (it takes the id the real pool is about to get), opens positions on many ticks
+// around the centre and swaps across all of them both ways. Nothing of it may survive: state is
+// discarded, and any process-level memory keyed by pool id (a cache, a memoised conversion) would
+// now be wrong for the real pool.
+func (w *World) discardedTwin(base, quote, ratio string, centre int64) {
+	c, _ := w.H.Ctx().CacheContext()
+	r2, o2 := "1.01", "0.25"
+	if ratio == "1.01" {
+		r2, o2 = "1.002", "-0.25"
+	}
+	defer func() { recover() }()
+	res, err := w.Srv.CreatePool(c, &lptypes.MsgCreatePool{Authority: w.H.Accts[0].Addr.String(), DenomBase: base, DenomQuote: quote, FeeRate: "0.003", PriceRatio: r2, BaseOffset: o2})
+	if err != nil {
+		return
+	}
+	tmp := PoolInfo{ID: res.Id, Denoms: []string{base, quote, base, quote}, Ratio: r2, Offset: o2, Fee: "0.003"}
+	amt := new(big.Int).Exp(big.NewInt(10), big.NewInt(12), nil)
+	for k := int64(1); k <= 64; k += 3 {
+		_, _ = w.Exec(c, tmp, Op{Kind: "create", Sender: 0, Lower: centre - k, Upper: centre + k, Base: amt, Quote: amt, MinBase: big.NewInt(0), MinQuote: big.NewInt(0)})
+		_, _ = w.Exec(c, tmp, Op{Kind: "create", Sender: 0, Lower: centre - k - 1, Upper: centre + k + 1, Base: amt, Quote: amt, MinBase: big.NewInt(0), MinQuote: big.NewInt(0)})
+	}
+	huge := new(big.Int).Exp(big.NewInt(10), big.NewInt(20), nil)
+	for _, din := range []int{0, 1, 1, 0} {
+		_, _ = w.Exec(c, tmp, Op{Kind: "swap", Sender: 1, ExactIn: true, DenomIn: din, Amount: huge})
+	}
 }
 
 // Op is one generated operation on a pool.
